@@ -2211,6 +2211,10 @@ std::string Generator::implementationCode() const
 std::string Generator::equationCode(const AnalyserEquationAstPtr &ast,
                                     const GeneratorProfilePtr &generatorProfile)
 {
+    if (ast == nullptr) {
+        return {};
+    }
+
     GeneratorPtr generator = libcellml::Generator::create();
 
     if (generatorProfile != nullptr) {
